@@ -266,6 +266,14 @@ def _tx_directed():
             out.append(_tx_case(cfg, memos, {"1": {"hist": [["acc", 0]], "then": "down"}, "2": [["acc", 2]], "3": []}))
             out.append(_tx_case(cfg, memos, {"1": {"hist": [["acc", 4], ["acc", 0]], "then": "down"}, "2": [], "3": [["acc", 0]]},
                                 ops=[["memoit", 0], ["memoit", 1], ["memoit", 2]] + [["once"]] * 10))
+            # key store history on one sender object with the transferable signer: sign, rotate the key pair (keep[vid]
+            # replaced on sender and receivers), sign again, receivers forget the signer, learn it again
+            if sg is not None:
+                cfgd = dict(cfg, signer=2)
+                ms5 = [m("before rotation", 1, 0), m("after rotation", 2, 1), m("unknown signer now", 1, 2), m("known again", 2, 3), m("rotated back", 1, 4)]
+                out.append(_tx_case(cfgd, ms5, {"1": [["acc", 0]], "2": [["acc", 4]]},
+                                    ops=[["memoit", 0], ["svc"], ["keep", "rotate"], ["memoit", 1], ["svc"], ["keep", "remove"], ["memoit", 2], ["svc"],
+                                         ["keep", "add"], ["memoit", 3], ["once"], ["keep", "rotate"], ["memoit", 4], ["svc"]]))
             # a destination that is down all the time, between two healthy ones; backpressure on the healthy ones
             out.append(_tx_case(cfg, [m("first healthy", 2, 0), m("nobody there", 1, 1), m("second healthy", 3, 2)],
                                 {"1": "down", "2": [["acc", 0], ["acc", 1], ["acc", 0], ["acc", 7]], "3": [["acc", 2], ["acc", 0]]}))
@@ -277,7 +285,7 @@ def _tx_generate(rng, n, base):
     for i in range(n):
         code = rng.choice(mc.ZERO_CODES)
         curt = rng.random() < 0.5
-        sg = rng.randrange(3) if code in mc.SIGNED else None
+        sg = rng.choice([0, 1, 2, 2]) if code in mc.SIGNED else None
         cfg = {"code": code, "curt": curt, "size": _min_size(code, curt) + rng.choice([1, 4, 9, 30] if sg is None else [30, 60]), "signer": sg}
         nd = rng.randint(2, 4)
         used = set()
@@ -304,6 +312,10 @@ def _tx_generate(rng, n, base):
             if rng.random() < 0.4:
                 ops.append(rng.choice([["svc"], ["once"]]))
         entry = rng.choice(["svc", "once"])
+        if sg == 2 and rng.random() < 0.7:      # key store history between the memos of this one sender
+            idx = [k for k, o in enumerate(ops) if o[0] == "memoit"][1:]
+            for k in sorted(rng.sample(idx, min(len(idx), rng.randint(1, 3))), reverse=True):
+                ops[k:k] = [[entry], ["keep", rng.choice(["rotate", "rotate", "remove", "add"])]]
         ops += [[entry]] * (6 if entry == "svc" else 80)
         out.append(_tx_case(cfg, memos, policy, ops, authic=(sg is not None and rng.random() < 0.8), budget=600))
         if rng.random() < 0.5:
@@ -395,31 +407,62 @@ def _run_tx(case):
         except Exception as ex:
             excs.append(exn_kind(ex))
     ops_run = []
+    entry = next((op for op in reversed(case["ops"]) if op[0] in ("svc", "once")), ["svc"])
+
+    def drain():
+        # keep servicing through the case's (last used) entry point until the sender is idle: the scripted push-back is
+        # finite, so this ends unless servicing spins (then the send-attempt budget stops it)
+        for _ in range(400):
+            if state["exhausted"] or excs[-1:] not in ([None], []) or not (tx.txms or tx.txgs or tx.txbs[1] is not None):
+                break
+            ops_run.append(entry); do(entry)
+
+    # key store history on this ONE sender object: phases separated by ["keep", action] ops.  Every phase has its own
+    # receivers (one per destination) whose keep is the one in force in that phase.
+    rotated_keep, _ = mc.keep_and_vids("rotated")
+    full_keep, _ = mc.keep_and_vids("full")
+    dvid = vids[2]
+    sender_keep = owned["keep"] if own else keep
+    phase, tx_mode, rx_mode = 0, "full", "full"
+    rxs, memo_phase, phase_modes = {}, {}, {}
+
+    def end_phase():
+        phase_modes[phase] = [tx_mode, rx_mode]
+        for dst in sorted({str(m["dst"]) for m in case["memos"]}):
+            got = state["delivered"].pop(dst, [])
+            rx = mc.new_receiver(case["authic"], rx_mode, own=own, **({"vid": int(dst) % 3} if case.get("rxvid") else {}))
+            ops = []
+            for d in got:
+                ops += [["dgram", d.hex(), 1], ["all"]]
+            ops.append(["all"])
+            rexcs = mc.run_rx_ops(rx, ops)
+            o = mc.observe_rx(rx)
+            o.update({"excs": rexcs, "ops": ops})
+            rxs[f"{phase}:{dst}"] = o
+
     for op in case["ops"]:
+        if op[0] == "keep":
+            drain()                          # nothing signed with the old key is still on its way
+            end_phase()
+            phase += 1
+            if op[1] == "rotate":            # the transferable signer's key pair is REPLACED on sender and receivers
+                tx_mode = "rotated" if tx_mode == "full" else "full"
+                sender_keep[dvid] = (rotated_keep if tx_mode == "rotated" else full_keep)[dvid]
+                rx_mode = tx_mode
+            elif op[1] == "remove":          # receivers forget the signer
+                rx_mode = "nokeep"
+            else:                            # "add": receivers learn the signer's current key (again)
+                rx_mode = tx_mode
+            continue
+        if op[0] == "memoit":
+            memo_phase[op[1]] = phase
         ops_run.append(op); do(op)
-    # keep servicing through the case's (last used) entry point until the sender is idle: the scripted push-back is
-    # finite, so this ends unless servicing spins (then the send-attempt budget stops it)
-    entry = next((op for op in reversed(case["ops"]) if op[0] != "memoit"), ["svc"])
-    for _ in range(400):
-        if state["exhausted"] or excs[-1:] not in ([None], []) or not (tx.txms or tx.txgs or tx.txbs[1] is not None):
-            break
-        ops_run.append(entry); do(entry)
-    # receivers, one per destination
-    rxs = {}
-    for dst in sorted({str(m["dst"]) for m in case["memos"]}):
-        rx = mc.new_receiver(case["authic"], own=own, **({"vid": int(dst) % 3} if case.get("rxvid") else {}))
-        ops = []
-        for d in state["delivered"].get(dst, []):
-            ops += [["dgram", d.hex(), 1], ["all"]]
-        ops.append(["all"])
-        rexcs = mc.run_rx_ops(rx, ops)
-        o = mc.observe_rx(rx)
-        o.update({"excs": rexcs, "ops": ops})
-        rxs[dst] = o
+    drain()
+    end_phase()
     return {"kind": "tx", "excs": excs, "ops_run": ops_run, "order": order, "rends": tx.rends, "sign": tx.slog, "size": tx.size,
             "vid": vid if tx.code in mc.SIGNED else None, "log": state["log"], "exhausted": state["exhausted"],
             "txgs": [[bytes(g).hex(), d] for g, d in tx.txgs], "txbs": [bytes(tx.txbs[0]).hex(), tx.txbs[1]],
-            "txms": len(tx.txms), "rxs": rxs}
+            "txms": len(tx.txms), "rxs": rxs, "memo_phase": {str(k): v for k, v in memo_phase.items()}, "phase_modes": phase_modes}
 
 
 def _tx_available(case, dst):
@@ -439,12 +482,20 @@ def _oracle_tx(case, obs):
         if any(o["excs"]):
             return f"receive servicing raised {o['excs']}"
     vidhex = None if obs["vid"] is None else obs["vid"].encode().hex()
-    for m in case["memos"]:
-        got = obs["rxs"][str(m["dst"])]
+    for mi, m in enumerate(case["memos"]):
+        ph = obs["memo_phase"].get(str(mi))
+        if ph is None:
+            continue
+        got = obs["rxs"][f"{ph}:{m['dst']}"]
         n = sum(1 for d in got["inbox"] + got["rxms"] if d == [m["text"].encode().hex(), 1, vidhex])
-        if _tx_available(case, m["dst"]) and n != 1:
-            return (f"memo {m['text']!r} for destination {m['dst']}, which stays available, was reconstructed {n} times "
+        tx_mode, rx_mode = obs["phase_modes"][str(ph)] if str(ph) in obs["phase_modes"] else obs["phase_modes"][ph]
+        known = not (obs["vid"] is not None and case["cfg"]["signer"] == 2) or rx_mode == tx_mode
+        if _tx_available(case, m["dst"]) and known and n != 1:
+            return (f"memo {m['text']!r} (phase {ph}, signer key {tx_mode}, receiver keep {rx_mode}) for destination {m['dst']}, "
+                    f"which stays available, was reconstructed {n} times "
                     f"(unsent: txms={obs['txms']} txgs={len(obs['txgs'])} txbs dst={obs['txbs'][1]})")
+        if not known and n:
+            return f"memo {m['text']!r} delivered although the receiver's keep has {rx_mode} for its signer whose key is {tx_mode}"
         if n > 1:
             return f"memo {m['text']!r} delivered {n} times"
     return None
